@@ -226,6 +226,21 @@ def replay(case):
     else:
         ev["exc"] = "minimize failed"
     evs.append(ev)
+    if fa.project(a) == A and fa.project(b) == B and case.get("family", "").startswith("random"):
+        # phase 2: both operands were compared and minimised above; change each through a public mutator (the DFA class
+        # overrides some of them) and compare again: nothing computed for the old value may be used
+        sa, sb = sorted(a.states, key=fa.tag), sorted(b.states, key=fa.tag)
+        if sa and sb:
+            guard.call(a.add_start_state, sa[-1].value)
+            guard.call(b.add_final_state, sb[0].value)
+            A2, B2 = fa.project(a), fa.project(b)
+            evs.append(fa.bool_event("is_equivalent_to", A2, guard.call(a.is_equivalent_to, b), B=B2, phase=2))
+            evs.append(fa.bool_event("eq", B2, guard.call(lambda: b == a), B=A2, phase=2))
+            evs.append(fa.result_event("minimize", A2, guard.call(a.minimize), phase=2))
+            guard.call(a.remove_start_state, sa[-1].value)
+            A3 = fa.project(a)
+            evs.append(fa.bool_event("is_equivalent_to", A3, guard.call(a.is_equivalent_to, b), B=B2, phase=3))
+            A, B = A3, B2
     for ev in evs:
         ev["meta"] = meta
     if fa.project(a) != A or fa.project(b) != B:
